@@ -289,4 +289,98 @@ pub fn eval_ev(case: &EvCase, stats: &mut Stats) -> Outcome {
     Outcome::Pass
 }
 
-pub const RULE: &str = "three engines on instance APIs. rolling log: RollingLogger::create_new(dir, name, size limit 64..4096, count 1..6) on a directory left by an earlier run with the same settings (0..count files, possibly at the bound, current file possibly over the limit); ops Write(n), WriteMany([n..]), Restart (new instance on the same directory), 1-59 ops; after EVERY op: files of the log <= count and every file <= limit + largest single write so far. rule dumps: AuthorizationRulesForLogging::write_all(dir, max 1..6) on directories holding 0..9 earlier dumps, 1-9 calls with varying max; after every call: exactly one new dump, dumps <= max, survivors are the newest in creation order. event files: event_logger::start(dir, 1 ms, cap 1..5) over a directory pre-populated with 0..8 files; ops Burst(n events), Consume(k oldest files, as the reader does), Wait(6 flush intervals); after every wait: file count <= max(cap, initial) and a flush that found the directory at the cap created no file. non-trivial: history that reaches the bound and continues, or starts at/over it; distinct by hash of the history.";
+// ------------------------------------------------------------------------------------------------
+// event files: the final flush when the logger is stopped. `stop()` closes a process-wide queue for good,
+// so every history runs in a child process (this executable with VERIF_C19_STOP_CASE set).
+
+#[derive(Clone, Debug, Serialize, Deserialize, Hash)]
+pub struct StopCase {
+    pub cap: usize,
+    pub initial: usize,
+    /// (events written, wait for the flush afterwards)
+    pub bursts: Vec<(u16, bool)>,
+    /// events still queued when stop() is called
+    pub queued_at_stop: u16,
+    pub interval_ms: u8,
+}
+
+pub fn stop_strategy() -> impl Strategy<Value = StopCase> {
+    (1usize..6, 0usize..8, prop::collection::vec((1u16..30, prop::bool::weighted(0.7)), 0..6), 0u16..8, 1u8..4).prop_map(|(cap, initial, bursts, queued_at_stop, interval_ms)| StopCase { cap, initial, bursts, queued_at_stop, interval_ms })
+}
+
+/// child side: run the history, print one JSON line {"violation": null | [signature, detail], "at_cap_at_stop": bool}
+pub fn stop_child(case_json: &str) -> ! {
+    let case: StopCase = serde_json::from_str(case_json).expect("stop case");
+    let dir = PathBuf::from(std::env::var("VERIF_C19_DIR").expect("VERIF_C19_DIR"));
+    let _ = std::fs::create_dir_all(&dir);
+    for i in 0..case.initial {
+        std::fs::write(dir.join(format!("15778368{:011}.json", i)), b"[]").unwrap();
+    }
+    let bound = case.cap.max(case.initial);
+    let iv = Duration::from_millis(case.interval_ms as u64);
+    let rt = tokio::runtime::Builder::new_current_thread().enable_all().build().unwrap();
+    let d2 = dir.clone();
+    let cap = case.cap;
+    let (violation, at_cap): (Option<(String, String)>, bool) = rt.block_on(async {
+        let task = tokio::spawn(async move {
+            proxy_agent_shared::telemetry::event_logger::start(d2, iv, cap, |_s: String| async {}).await;
+        });
+        for (i, (n, wait)) in case.bursts.iter().enumerate() {
+            for k in 0..*n {
+                proxy_agent_shared::telemetry::event_logger::write_event(proxy_agent_shared::logger::LoggerLevel::Info, format!("event {} of burst {}", k, i), "m", "c19", "none");
+            }
+            if *wait {
+                tokio::time::sleep(iv * 6).await;
+                let n = files_in(&dir).len();
+                if n > bound {
+                    return (Some(("events:more-files-than-cap".to_string(), format!("burst {}: {} files with cap {} (initially {})", i, n, case.cap, case.initial))), false);
+                }
+            }
+        }
+        let before = files_in(&dir).len();
+        for k in 0..case.queued_at_stop {
+            proxy_agent_shared::telemetry::event_logger::write_event(proxy_agent_shared::logger::LoggerLevel::Info, format!("late event {}", k), "m", "c19", "none");
+        }
+        proxy_agent_shared::telemetry::event_logger::stop();
+        let _ = tokio::time::timeout(iv * 40 + Duration::from_millis(200), task).await;
+        let after = files_in(&dir).len();
+        if after > bound {
+            return (Some(("events:more-files-than-cap-after-stop".to_string(), format!("{} files after stop() with {} events queued, cap {} (initially {}, {} before the stop)", after, case.queued_at_stop, case.cap, case.initial, before))), before >= case.cap);
+        }
+        (None, before >= case.cap)
+    });
+    println!("{}", serde_json::json!({"violation": violation, "at_cap_at_stop": at_cap}));
+    std::process::exit(0);
+}
+
+pub fn eval_stop(case: &StopCase, stats: &mut Stats) -> Outcome {
+    let dir = fresh_dir("events-stop");
+    let exe = match std::env::current_exe() {
+        Ok(e) => e,
+        Err(e) => return Outcome::fail("rig:no-current-exe", e.to_string()),
+    };
+    let out = std::process::Command::new(exe).env("VERIF_C19_STOP_CASE", serde_json::to_string(case).unwrap()).env("VERIF_C19_DIR", &dir).stdin(std::process::Stdio::null()).output();
+    let _ = std::fs::remove_dir_all(&dir);
+    let out = match out {
+        Ok(o) => o,
+        Err(e) => return Outcome::fail("rig:cannot-spawn-child", e.to_string()),
+    };
+    let text = String::from_utf8_lossy(&out.stdout).to_string();
+    let v: serde_json::Value = match text.lines().rev().find_map(|l| serde_json::from_str(l).ok()) {
+        Some(v) => v,
+        None => return Outcome::fail("events:logger-process-died", format!("status {:?}; stdout {:?}; stderr {:?}", out.status, text.chars().take(300).collect::<String>(), String::from_utf8_lossy(&out.stderr).chars().take(600).collect::<String>())),
+    };
+    stats.class("events:stop-history");
+    let at_cap = v["at_cap_at_stop"].as_bool().unwrap_or(false);
+    if at_cap && case.queued_at_stop > 0 {
+        stats.class("events:stop-with-events-queued-and-directory-at-cap");
+        stats.nontrivial_hash(h64(case));
+    }
+    stats.sample(|| serde_json::json!({"event_logger_stop": case}));
+    if let Some(a) = v["violation"].as_array() {
+        return Outcome::fail(a[0].as_str().unwrap_or("events:unknown"), a[1].as_str().unwrap_or("").to_string());
+    }
+    Outcome::Pass
+}
+
+pub const RULE: &str = "three engines on instance APIs. rolling log: RollingLogger::create_new(dir, name, size limit 64..4096, count 1..6) on a directory left by an earlier run with the same settings (0..count files, possibly at the bound, current file possibly over the limit); ops Write(n), WriteMany([n..]), Restart (new instance on the same directory), 1-59 ops; after EVERY op: files of the log <= count and every file <= limit + largest single write so far. rule dumps: AuthorizationRulesForLogging::write_all(dir, max 1..6) on directories holding 0..9 earlier dumps, 1-9 calls with varying max; after every call: exactly one new dump, dumps <= max, survivors are the newest in creation order. event files: event_logger::start(dir, 1 ms, cap 1..5) over a directory pre-populated with 0..8 files; ops Burst(n events), Consume(k oldest files, as the reader does), Wait(6 flush intervals); after every wait: file count <= max(cap, initial) and a flush that found the directory at the cap created no file. the final flush: each history in a child process (stop() closes a process-wide queue): pre-populated directory, bursts with or without waiting, then 0-7 events queued and stop() at once; after the logger task has ended: file count <= max(cap, initial). non-trivial: history that reaches the bound and continues, or starts at/over it, or stops at the cap with events queued; distinct by hash of the history.";
